@@ -40,11 +40,14 @@ def impl(case):
     return out
 
 
-TERM_CHARSETS = [list("ab "), list("abc "), list("aéü "), list("abA "), list("a€b"), list("→←≤1"), list("€む→"), list("ab. "), list("ab+ "), list("aAbB")]
+TERM_CHARSETS = [list("ab "), list("abc "), list("aéü "), list("abA "), list("a€b"), list("→←≤1"), list("€む→"), list("ab. "), list("ab+ "), list("aAbB"), list("abcd ")]
 
 
 def make_case(rng, i, tier):
     cs = rng.choice(TERM_CHARSETS)
+    four = rng.random() < 0.12
+    if four:
+        cs = list("abcd ")      # `start: TA TB TC TD` over four one-letter terminals with %ignore, the same object asked twice
     letters = [c for c in cs if c != " "]
     nterm = rng.choice([1, 2, 2, 3, 4, 4])
     terms = []
@@ -79,11 +82,13 @@ def make_case(rng, i, tier):
     if len(multi) >= 2 and rng.random() < 0.6:
         # one terminal = a class over several 3-byte characters (shared lead byte, different continuation bytes)
         terms[0] = {"name": terms[0]["name"], "kind": "re", "ast": ("cls", sorted(rng.sample(multi, min(len(multi), rng.choice([2, 3])))), False)}
+    if four:
+        terms = [{"name": "T" + "ABCD"[k], "kind": "str", "lit": c, "ci": False, "ast": ("lit", c)} for k, c in enumerate("abcd")]
     ignore = None
-    if " " in cs and rng.random() < 0.5:
+    if " " in cs and (four or rng.random() < 0.5):
         ignore = {"name": "WS", "kind": "str", "lit": " ", "ci": False, "ast": ("lit", " ")}
     rules = {}
-    rnames = ["start"] + (["r1"] if rng.random() < 0.5 else [])
+    rnames = ["start"] + (["r1"] if rng.random() < 0.5 and not four else [])
     syms = [t["name"] for t in terms] + rnames[1:]
     for r in rnames:
         alts = []
@@ -95,6 +100,8 @@ def make_case(rng, i, tier):
             alts.append(items)
         if r != "start" or rng.random() < 0.3:
             alts.append([[rng.choice([t["name"] for t in terms]), ""]])   # guarantee termination
+        if four:
+            alts = [[["TA", ""], ["TB", ""], ["TC", ""], ["TD", ""]]]
         rules[r] = alts
     lines = []
     for r, alts in rules.items():
@@ -108,6 +115,8 @@ def make_case(rng, i, tier):
         lines.append("%ignore WS")
     L = 3 if len(cs) >= 4 else 4
     strings = ["".join(s) for s in gen.all_strings(cs, L)]
+    if four:
+        strings += ["".join(s) for s in gen.all_strings(letters, 4) if len(s) == 4]
     bad = []
     for s in strings[:40]:
         b = list(s.encode("utf-8"))
@@ -124,7 +133,7 @@ def make_case(rng, i, tier):
                     if mix not in mb:
                         bad.append(mix)
                         bad.append([ord("1")] + mix + [ord("1")] if "1" in cs else mix + mix)
-    return {"id": i, "twice": rng.random() < 0.35, "grammar": "\n".join(lines) + "\n", "charset": cs, "terms": terms, "ignore": ignore, "rules": rules, "strings": strings, "bad_bytes": bad[:12] + bad[12:][-24:]}
+    return {"id": i, "twice": four or rng.random() < 0.35, "grammar": "\n".join(lines) + "\n", "charset": cs, "terms": terms, "ignore": ignore, "rules": rules, "strings": strings, "bad_bytes": bad[:12] + bad[12:][-24:]}
 
 
 def _lit_ast(lit):
